@@ -794,9 +794,35 @@ func runC03(c *checker, r *rng.R) {
 		}
 		c03Input(c, r, anyType(), b, "random")
 	}
+	// valid values nested deeply, one item per level: 8 … 1000 levels of lists, sets, map values,
+	// struct fields, or a mix (a decoder that does per-level work proportional to what lies below,
+	// or worse, shows up as a hang under the watchdog)
+	for _, depth := range []int{8, 16, 24, 32, 48, 64, 128, 256, 1000} {
+		for kind := 0; kind < 5; kind++ {
+			v := &wv.V{T: wv.TI8, U: 7}
+			for i := 0; i < depth; i++ {
+				k := kind
+				if kind == 4 {
+					k = r.Intn(4)
+				}
+				switch k {
+				case 0:
+					v = &wv.V{T: wv.TStruct, Fields: []wv.Field{{ID: uint16(1 + i%3), V: v}}}
+				case 1:
+					v = &wv.V{T: wv.TList, ET: v.T, Items: []*wv.V{v}}
+				case 2:
+					v = &wv.V{T: wv.TSet, ET: v.T, Items: []*wv.V{v}}
+				default:
+					v = &wv.V{T: wv.TMap, KT: wv.TI8, ET: v.T, Items: []*wv.V{{T: wv.TI8, U: 1}, v}}
+				}
+			}
+			c03Input(c, r, v.T, v.Encode(nil), "deep-nesting")
+			c.flush()
+		}
+	}
 	c.flush()
 	c03DeepProbe(c)
-	c.rep.Rule = "byte strings: valid encodings, truncation at every offset of encodings ≤24 bytes, grammar-aware mutations (bit/byte flips, type-byte swaps, length/count edits incl. negative and 2^31-1, insert/delete/truncate/append), uniform random; × requested type (11 valid + random invalid) × {random-access+force, stream under random segmentation incl. 1-byte and zero-length reads, skip with and without seek}; non-trivial = non-empty input; distinct by (type, bytes)"
+	c.rep.Rule = "byte strings: valid encodings, truncation at every offset of encodings ≤24 bytes, grammar-aware mutations (bit/byte flips, type-byte swaps, length/count edits incl. negative and 2^31-1, insert/delete/truncate/append), uniform random, valid values nested 8 … 1000 levels deep (one item per level: lists, sets, map values, struct fields, mixed); × requested type (11 valid + random invalid) × {random-access+force, stream under random segmentation incl. 1-byte and zero-length reads, skip with and without seek}; non-trivial = non-empty input; distinct by (type, bytes)"
 }
 
 // deepChild is the body of the child process of c03DeepProbe: struct-in-struct nesting of `depth`
